@@ -425,7 +425,7 @@ def _run(ctx: Ctx) -> None:
     all_codecs = '{"none", "zstd", "gzip"}'
 
     # ---- (1) TLC checks the model
-    mc_scripts = [[2], [2, 4], [4, 2, 2], [2, 2, 4]] if quick else _scripts([2, 4, 6], 3)
+    mc_scripts = [[2, 4], [4, 2, 2], [2, 2, 4]] if quick else _scripts([2, 4, 6], 3)
     wrap_module(wd, "Chunking", "MC_Chunk", {"ScriptsDef": _tla_seqs(mc_scripts), "CapsDef": "0..9" if quick else "0..21",
                                              "CodecsDef": '{"none", "zstd"}' if quick else all_codecs,
                                              "ApisDef": '{"iter", "nwt"}', "EagersDef": "BOOLEAN",
@@ -446,7 +446,8 @@ def _run(ctx: Ctx) -> None:
     # ---- (2) histories from the state graph
     g_scripts = [[2, 4], [4, 2, 2]] if quick else [[2], [4, 2], [2, 4], [4, 2, 2], [2, 2, 4], [6, 2, 2]]
     g_caps = "{0, 1, 6, 9}" if quick else "0..11"
-    wrap_module(wd, "Chunking", "G_Chunk", {"ScriptsDef": _tla_seqs(g_scripts), "CapsDef": g_caps, "CodecsDef": all_codecs,
+    wrap_module(wd, "Chunking", "G_Chunk", {"ScriptsDef": _tla_seqs(g_scripts), "CapsDef": g_caps,
+                                            "CodecsDef": '{"none", "zstd"}' if quick else all_codecs,   # gzip: extras + sweep
                                             "ApisDef": '{"iter", "nwt"}', "EagersDef": "{FALSE}" if quick else "BOOLEAN"})
     gr, g = dump_graph(wd, "G_Chunk", render_cfg(constants=_consts(True, resume=1, evict=1), overrides=ov,
                                                  invariants=STATEMENT, constraint=["DepthBound"]), name="chunk", timeout=1500)
